@@ -37,7 +37,7 @@ prop('C02',
      technique='linear normal forms of integer expressions; reader/writer key agreement')
 
 prop('C03',
-     rules=['TAB-OPS', 'TAB-BRK', 'TAB-QUOTE', 'TAB-KEYS-OPT', 'DEC-BOOL', 'DEC-MERGEDECL', 'DEC-MULTIVALUE', 'SIB-CARET', 'SIB-QUOTE'],
+     rules=['TAB-OPS', 'TAB-BRK', 'TAB-QUOTE', 'TAB-KEYS-OPT', 'DEC-BOOL', 'DEC-MERGEDECL', 'DEC-MULTIVALUE', 'SIB-CARET', 'SIB-QUOTE', 'OWN-ASTLIST'],
      explanation='Shorthand/bracket/quote characters agree with token kinds and with what is printed back inside values (D); option names '
                  'exist (D); boolean / implied / quote / case decisions are extracted as complete decision tables (N).',
      not_decided=['merge results for arbitrary orders and duplicates, reverse mode, name mapping (value-level)'],
@@ -74,10 +74,16 @@ prop('C07',
      technique='call-graph reachability of raise sites; per-family exception lints with reviewed tables')
 
 prop('C08',
-     rules=['DEC-SCOPE', 'ORD-MERGE'],
-     explanation='(partial, being extended) the cache stores the unfiltered snippet list and merging builds fresh dicts.',
-     not_decided=['ownership/effect rules OWN-* are being built'],
-     technique='ownership and effect analysis')
+     rules=['OWN-GLOBAL', 'OWN-DEFAULT', 'OWN-CALLER', 'OWN-RESTORE', 'OWN-CACHE', 'OWN-AMBIENT', 'OWN-ASTLIST', 'DEC-SCOPE', 'ORD-MERGE'],
+     explanation='Decides purity for the state the library itself keeps or touches, on every path and call chain: no module-level object is mutated and '
+                 'no module-level name assigned (D), no mutable default argument is mutated (D), nothing reachable from the caller\'s config / Config / '
+                 'global config / options is mutated except the cache slot and the verified temporary override of `text`, which is restored in a finally '
+                 'block (D), nothing that lives in the snippet cache is mutated after it was built (D), ambient state (random, time, id, hash) is used only by '
+                 'the lorem generator (D). Effect summaries are computed to a fixpoint over the resolved call graph with a field-based heap.',
+     not_decided=['two different snippet tables sharing one cache dict see the first table (cache keyed by a constant; upstream contract is one cache per config)'],
+     technique='interprocedural effect/ownership analysis (access paths, alias heap, summaries to fixpoint)',
+     assumptions=['user supplied callables (output.field, output.text) do not reach back into library state',
+                  'strings and numbers are immutable; only container/object mutation is tracked'])
 
 prop('C09',
      rules=['RNG-STRICT/html', 'TAB-VOID', 'EXC-THROWS', 'EXC-RAISE/matcher', ('RNG-STOP', ['html_matcher']), ('SCN-REST', ['html_matcher', 'scanner_utils']), ('SCN-OVER', ['html_matcher', 'scanner_utils']), ('SCN-PROGRESS', ['html_matcher', 'scanner_utils']),
@@ -102,7 +108,7 @@ prop('C11',
      technique='clamp dominance; table agreement')
 
 prop('C12',
-     rules=['TAB-SELFCLOSE', 'ACC-WRITER', 'TAB-KEYS-OPT', 'OWN-RAWPUSH', 'SIB-SPLITLINES', 'PATH-LEVEL', 'PATH-EMIT-HTML'],
+     rules=['TAB-SELFCLOSE', 'ACC-WRITER', 'TAB-KEYS-OPT', 'OWN-RAWPUSH', 'SIB-SPLITLINES', 'PATH-LEVEL', 'PATH-EMIT-HTML', 'OWN-FMT-RO', 'OWN-ASTLIST'],
      explanation='Self-closing style decides only the characters before > (D); newline/indent emission is newline + baseIndent + level*indent (D).',
      not_decided=['should_format\'s choice of where to break'],
      technique='decision tables; who-may-write')
@@ -152,14 +158,14 @@ prop('C18',
 prop('C19',
      rules=['EXC-RAISE/math', 'DEC-PRIO', 'TAB-MATHOPS', ('RNG-CLAMP', ['math_expression']), ('EXC-NUMCONV', ['math_expression']),
             ('SCN-OVER', ['math_expression']), ('SCN-PROGRESS', ['math_expression']), ('SCN-REST', ['math_expression']),
-            'RNG-BALANCED', ('CNT-DEPTH', ['math_expression'])],
+            'RNG-BALANCED', ('CNT-DEPTH', ['math_expression']), ('OWN-GLOBAL', ['math_expression'])],
      explanation='Only MathExpressionException is raised explicitly (D); the precedence table satisfies the documented orderings and a prefix sign never '
                  'reduces a pending operator (N, finite table); every accepted operator has an evaluator with the right operand order (D); extract clamps its position (D).',
      not_decided=['arithmetic values'],
      technique='finite priority table extraction; call-graph raise reachability')
 
 prop('C20',
-     rules=['ORD-MERGE', 'TAB-KEYS-OPT', 'TAB-UNITS', 'TAB-SELFCLOSE'],
+     rules=['ORD-MERGE', 'TAB-KEYS-OPT', 'TAB-UNITS', 'TAB-SELFCLOSE', ('OWN-CALLER', ['config', 'expand']), ('OWN-GLOBAL', ['config', 'snippets']), ('OWN-DEFAULT', ['config', 'expand'])],
      explanation='The six layers are applied to a fresh dict in exactly the documented order, each looked up with a default or behind a membership guard, '
                  'no layer table or caller dict is written, Config passes (type, syntax, section, user, global) in that order and expand forwards the global config (D).',
      not_decided=[],
